@@ -245,6 +245,12 @@ def solved(ctx, thorough, terms_path):
         with warnings.catch_warnings():
             warnings.simplefilter('ignore')
             P = s.createPRISM()
+            if rng.random() < 0.35:
+                # the user prepares the next run on the same System before solving this object (a sweep): the object was created
+                # for the inputs of `c` and is judged against them
+                s.domain.dr = float(s.domain.dr) * 0.8
+                for t in c['types']:
+                    s.density[t] = float(s.density[t]) * 1.07
             seq = [('zero', None)]
             if rng.random() < 0.5:
                 seq.append(('own', None) if rng.random() < 0.5 else ('perturbed', None))
